@@ -14,6 +14,11 @@
 (*   McmcStep(i,j,g1,g2,acc) _mcmc_step / _pairwise_reshuffle              *)
 (*   Yield(wts)              one turn of the `while True` loop of sample   *)
 (*   Resume                  the consumer calls next() again               *)
+(* One behaviour = one call of sample() on a sampler object.  The object   *)
+(* may have served earlier calls: rem, todo, chain, fixed start afresh, but *)
+(* `flag` (matching_sequences) is an attribute of the object that no call   *)
+(* resets - a call starts with whatever flag the earlier ones left, and     *)
+(* Extract can only lower it to "no" (MC_Sampler: Flags0, Trace_C16: flag0).*)
 (* Nodes are the code's indices (0..N-1); `lab` maps them back to labels.  *)
 (* A disabled action = the code raises there (no sample is produced).      *)
 (***************************************************************************)
@@ -93,6 +98,9 @@ Merged(L, wts) ==
   IN [e \in es |-> LET F(i) == wts[i] IN SSum(F, {i \in live : L[i] = e})]
 Image(lb, f) == {lb[n] : n \in f}
 YieldOut(L, wts, lb) == Merged([i \in DOMAIN L |-> Image(lb, L[i])], wts)
+\* a raw weight of 0 is not an outcome of the truncated Poisson (Y = X | X > 0): the code filters it "although
+\* theoretically impossible".  The design tolerates it for well-formedness; the statement's exactness does not
+\* excuse it - on a list without coincidences a dropped hyperedge is a violation (Trace_C16: ..._at_yield).
 CleanYield(L, wts) == NoCoincidence(L) /\ \A i \in DOMAIN L : wts[i] > 0
 
 ---------------------------------------------------------------------------
